@@ -622,6 +622,7 @@ func asWorldGen(r *Run, rng *Rng, w *asWorld, steps int) {
 		maxSize = uint64(200 + rng.Intn(9000))
 	}
 	fep := rng.Chance(35) // aggchain-prover flow (its start-up check waits for the syncer to reach the start block: start 0)
+	optWorld := fep && rng.Chance(50) // the optimistic-mode flag changes during the world
 	if fep {
 		start = 0
 	}
@@ -682,8 +683,16 @@ func asWorldGen(r *Run, rng *Rng, w *asWorld, steps int) {
 		do("epoch")
 		r.Count("branch:prelude-recovered-replacement-replaced")
 	}
+	if optWorld && rng.Bool() {
+		do("opt on")
+	}
 	for i := 0; i < steps; i++ {
 		x := rng.Intn(100)
+		if optWorld && rng.Chance(7) {
+			// the optimistic-mode flag flips; typically while a certificate of the other type is open or in error
+			do([]string{"opt on", "opt off"}[boolInt(!w.optOn)])
+			r.Count("branch:optimistic-flag-flips")
+		}
 		switch {
 		case x < 30:
 			l2 += uint64(1 + rng.Intn(2))
@@ -745,6 +754,8 @@ func asWorldGen(r *Run, rng *Rng, w *asWorld, steps int) {
 			}
 		case x < 86:
 			switch {
+			case fep && optWorld && rng.Chance(40):
+				do([]string{"opt on", "opt off"}[rng.Intn(2)])
 			case fep && rng.Chance(50):
 				do([]string{"prover fail", "prover notyet", "prover cut 1", "prover cut 2", "prover cut 50"}[rng.Intn(5)])
 			case rng.Bool():
